@@ -97,7 +97,7 @@ InvNames ==
    "C11_ReadIndexFresh", "C11_ServedByRealLeader",
    "C14_NoPanic", "C15_Converged",
    "C16_MsgSizeBound", "C16_InflightBound", "C16_NoAppendDuringSnapshot", "C16_UncommittedBound", "C16_DropIffOver",
-   "C17_PreVoteBeforeTerm", "C17_PreVoteNoStateChange", "C17_LeaseHolds", "C17_CheckQuorumStepDown",
+   "C17_PreVoteBeforeTerm", "C17_PreVoteNoStateChange", "C17_LeaseHolds", "C17_LeaseFromContact", "C17_NoCampaignInLease", "C17_CheckQuorumStepDown",
    "C19_SameOutputs",
    "C20_NothingInvented", "C20_AtMostOncePerDelivery", "C20_ProposedAtLeaderOnce", "C20_QueuedIntact", "C20_ForwardIntact", "C20_DroppedMeansDropped"}
 
@@ -151,6 +151,8 @@ Holds(name) ==
     [] name = "C17_PreVoteBeforeTerm" -> C17_PreVoteBeforeTerm
     [] name = "C17_PreVoteNoStateChange" -> C17_PreVoteNoStateChange
     [] name = "C17_LeaseHolds" -> C17_LeaseHolds
+    [] name = "C17_LeaseFromContact" -> C17_LeaseFromContact
+    [] name = "C17_NoCampaignInLease" -> C17_NoCampaignInLease
     [] name = "C17_CheckQuorumStepDown" -> C17_CheckQuorumStepDown
     [] name = "C19_SameOutputs" -> C19_SameOutputs
     [] name = "C20_NothingInvented" -> C20_NothingInvented
